@@ -201,9 +201,14 @@ pub fn run() -> i32 {
     let ss = scalars(seed, ctx.tier);
     let ps = points(seed, ctx.tier);
     ctx.rule = format!("full product scalars x points: {} scalars (every integer in [0,64), [2^254-8,2^254+8], [L-8,L+8], [8L-8,8L+8], [2^255-8,2^255+8), [2^256-16,2^256), RFC 7748 scalars, seeded members) x {} point encodings (every integer u in [0,{}), [p-64,p+64], [2^255-64,2^255+64), [2^256-64,2^256), the complete low-order table with and without bit 255, RFC 7748 vectors, honest public keys, seeded members), each through dryoc and libsodium crypto_scalarmult; plus base-point multiplication for every scalar, DH commutativity, box precomputation and key-exchange session keys; non-trivial = product cell executed in both implementations", ss.len(), ps.len(), ctx.tier.pick(2048, 16384));
+    ctx.assume("reference 2: pure-Python RFC 7748 ladder over a dumped sub-product (ref/curve_check.py), run by bin/check after this binary");
     ctx.assume("libsodium's ref10 X25519 is the reference (its output buffer is zero when it refuses a blocklisted point, which equals the RFC 7748 result for a clamped scalar)");
     ctx.assume("the 2^512 input space is represented by the stated structural classes (clamping, top bit, twist/curve, small-order component, non-canonical reduction)");
 
+    let corpus_path = format!("{}/logs/c05_corpus.jsonl", VERIF_ROOT);
+    let _ = std::fs::create_dir_all(format!("{}/logs", VERIF_ROOT));
+    let corpus = std::sync::Mutex::new(std::io::BufWriter::new(std::fs::File::create(&corpus_path).expect("corpus")));
+    let pstep = ctx.tier.pick(4usize, 8);
     let units: Vec<usize> = (0..ss.len()).collect();
     let st = par_units(&units, |&si, st| {
         let n = &ss[si];
@@ -225,6 +230,11 @@ pub fn run() -> i32 {
                 }
                 Ok(q) => {
                     let ok = q == want;
+                    if si % 16 == 3 && (pi % pstep == 0 || cls != "ordinary(curve-or-twist)") {
+                        use std::io::Write;
+                        let mut f = corpus.lock().unwrap();
+                        let _ = writeln!(f, "{}", json!({"p": "x25519", "n": hx(n), "u": hx(p), "out": hx(&q)}));
+                    }
                     st.eval(&(si, pi), true, if ok { if rc == 0 { "mult==libsodium" } else { "mult==0(low-order)" } } else { "mult-differs" });
                     *st.dims.entry(format!("points:{}", cls)).or_insert(0) += 1;
                     if !ok {
@@ -253,6 +263,11 @@ pub fn run() -> i32 {
             st.sample(json!({"scalar": hx(n), "points": ps.len(), "first_points": ps.iter().take(3).map(|p| hx(p)).collect::<Vec<_>>()}));
         }
     });
+    {
+        use std::io::Write;
+        corpus.into_inner().unwrap().flush().unwrap();
+    }
+    ctx.note("second_reference_corpus", json!(corpus_path));
     ctx.note("point_classes", json!(st.dims));
     ctx.absorb("scalarmult", st);
 
